@@ -484,10 +484,10 @@ func H_sessionsetup_fault_r2_259() {
 	verifFaultRound2(verifIDs259(), verifLen(0, 2), verifLen(0, 1), verifMask32())
 }
 
-// H_sessionsetup_fault_nopremise_INCONCLUSIVE (control, expected status: inconclusive): without
+// H_sessionsetup_fault_nopremise_EXPECT_INCONCLUSIVE (control, expected status: inconclusive): without
 // the collision-resistance premise the detection is not provable in the hash model (the solver
 // picks a "collision" of the uninterpreted hash, which the real BLAKE2b does not reproduce).
-func H_sessionsetup_fault_nopremise_INCONCLUSIVE() {
+func H_sessionsetup_fault_nopremise_EXPECT_INCONCLUSIVE() {
 	ids := verifIDs123()
 	r := verifNewRun(ids)
 	r.round1()
